@@ -3,13 +3,14 @@
    Model: GV.Table.Model (mirror of runtime/hashtable.go, runtime/table.go),
    GV.Table.ModelValue (Value.Equals, ToIntNoString), spec GV.Table.Spec.
    The hash function is universally quantified in every theorem (Section variable);
-   no theorem bounds sizes or history lengths.  The full refinement
-   (get_refines / inv_preserved for the large-mode chains, len_is_border,
-   traversal_exact) is NOT proved — see notes/C03.md; what is proved is listed
-   here, and the faithful model REFUTES the traversal / key-identity / __newindex
-   clauses of C03 on five witnesses (…_refuted), each replayed on the Go code. *)
+   no theorem bounds sizes or history lengths.  Proved: key identity, lookup refinement
+   (sound and complete under Inv), Reset/clear refinement with Inv preservation, insertion of a
+   new key (map effect for all three cases; full Inv in small mode), len_is_border, shape
+   preservation.  NOT proved: completeness of lookups after a large-mode insertion (chains
+   I1-I3), hence grow/cleanup/mixedTable.insert and the fold over whole histories
+   (table_is_map), traversal_exact — see notes/C03.md. *)
 From Coq Require Import ZArith NArith List Bool.
-From GV Require Import Table.ModelValue Table.Model Table.Spec Table.ValueProofs Table.Proofs.
+From GV Require Import Table.ModelValue Table.Model Table.Spec Table.ValueProofs Table.Proofs Table.Inv Table.Refine Table.RefineIns Table.RefineTable.
 Import ListNotations.
 
 (* --- key identity --- *)
@@ -55,6 +56,63 @@ Theorem C03_reset_keeps_shape : forall hash t k v t' b,
   hshape (hpart t') = hshape (hpart t) /\ asize (apart t') = asize (apart t).
 Proof. intros. split; [eapply treset_hash_shape|eapply treset_array_size]; eassumption. Qed.
 Print Assumptions C03_reset_keeps_shape.
+
+(* --- refinement of the abstract map (round 2).  Inv = array part (len is the index of the last non-nil)
+   + hash part (HInv: size 2^base, cells well-formed/normalised/no duplicate key, nextFree = highest empty
+   slot, lookups terminate and are complete).  abs t = the abstract map on normalised keys. --- *)
+
+(* in the small-table mode lookups are complete whatever the state *)
+Theorem C03_find_complete_small : forall hash sl mask, mask < smallHashTableSize -> length sl = S mask -> HFind hash sl mask.
+Proof. exact HFind_small. Qed.
+Print Assumptions C03_find_complete_small.
+
+(* Get computes the abstract map (soundness AND completeness), any hash function, any size *)
+Theorem C03_get_refines : forall hash t k, Inv hash t -> gkey (norm k) -> mget hash t k = Ok (abs t (norm k)).
+Proof. exact mget_refines. Qed.
+Print Assumptions C03_get_refines.
+
+(* Reset (what t[k]=v uses for an existing field) and clears: invariant preserved, reports presence,
+   and the abstract map is updated at exactly the keys Equals to the normalised key *)
+Theorem C03_reset_refines : forall hash t k v t' b, Inv hash t -> gkey (norm k) ->
+  treset hash t k v = Ok (t', b) ->
+  Inv hash t' /\ b = negb (is_nil (abs t (norm k))) /\
+  forall k', gkey k' -> abs t' k' = if b && equals (norm k) k' then v else abs t k'.
+Proof. exact treset_refines. Qed.
+Print Assumptions C03_reset_refines.
+
+(* insertion of a NEW key into the hash part (small mode and all three cases of insertNewKeyValue,
+   any hash function): no duplicate keys, nextFree right again, the abstract map gains exactly k => v;
+   the whole invariant is re-established in the small-table mode.  _partial: completeness of lookups
+   after a LARGE-mode insertion (chains I1-I3) is not proved, hence also not grow/cleanup. *)
+Theorem C03_insert_new_key_partial : forall hash t k v t', HInv hash t -> gkey k -> kabsent (kvs (slots t)) k ->
+  hinsertNew hash (Some t) k v = Ok t' ->
+  length (slots t') = 2 ^ hbase t' /\ hbase t' = hbase t /\ KBase (kvs (slots t')) /\ nf_ok (slots t') (nextFree t') /\
+  (forall k', gkey k' -> klook (kvs (slots t')) k' = if equals k k' then v else klook (kvs (slots t)) k') /\
+  (hmask t < smallHashTableSize -> HInv hash t').
+Proof. exact hinsertNew_spec. Qed.
+Print Assumptions C03_insert_new_key_partial.
+
+(* the length operator returns a border of the abstract map *)
+Theorem C03_len_is_border : forall hash t l, Inv hash t -> mlen hash t = Ok l -> (Z.of_nat l + 1 < 9223372036854775808)%Z ->
+  (l = 0 \/ abs t (VInt (Z.of_nat l)) <> VNil) /\ abs t (VInt (Z.of_nat l + 1)) = VNil.
+Proof. exact len_is_border. Qed.
+Print Assumptions C03_len_is_border.
+
+(* the hypotheses are satisfiable *)
+Theorem C03_inv_nonvacuous : forall hash, Inv hash empty_table /\ HInv hash (mkH [empty_slot] (Some 0) 0).
+Proof. intros. split; [apply Inv_empty|apply HInv_fresh]. Qed.
+Print Assumptions C03_inv_nonvacuous.
+
+(* the witnesses of the five repaired defects, on the positive side *)
+Theorem C03_repaired_witnesses :
+  (exists t t' b, run_ops (ints 8) = Ok t /\ treset hid t (VInt 8) VNil = Ok (t', b) /\ mnext hid t' (VInt 8) = Ok (VNil, VNil, true)) /\
+  (exists t t', run_ops strs4 = Ok t /\ hfull (hpart t) = true /\ tset hid t (VStr [97%N]) (VInt 101) = Ok t' /\ hshape (hpart t') = hshape (hpart t)) /\
+  (exists t, run_ops [OSet (VInt 1) (VInt 10); OSet (VInt 2) (VInt 20); OSet (VInt 0) (VInt 5)] = Ok t /\
+     mnext hid t (VInt 2) = Ok (VInt 0, VInt 5, true) /\ mnext hid t (VInt 0) = Ok (VNil, VNil, true)) /\
+  (exists t t', run_ops [OSet (VInt 6) (VInt 1)] = Ok t /\ treset hid t (VFlt 4618441417868443648) (VInt 3) = Ok (t', true) /\
+     mget hid t' (VInt 6) = Ok (VInt 3)).
+Proof. exact (conj witness_clear_last_array_slot (conj witness_set_existing_when_full (conj witness_next_zero witness_reset_float))). Qed.
+Print Assumptions C03_repaired_witnesses.
 
 (* non-vacuity of the model: all three insertion cases, a migration, a cleanup, every key retrievable *)
 Theorem C03_demo_history :
